@@ -144,6 +144,8 @@ def check_genbank(spec, ctx):
         ctx.nt("offset!=0")
     if any("cds" not in t for gn in genes for t in gn["transcripts"]):
         ctx.label("noncoding")
+    if any(t["exons"][i_][1] == t["exons"][i_ + 1][0] for gn in genes for t in gn["transcripts"] for i_ in range(len(t["exons"]) - 1)):
+        ctx.label("abutting_exons")
     spans = sorted((min(t["exons"][0][0] for t in gn["transcripts"]), max(t["exons"][-1][1] for t in gn["transcripts"])) for gn in genes)
     if any(spans[i][1] == spans[i + 1][0] for i in range(len(spans) - 1)):
         ctx.nt("two_genes_touching")
@@ -298,7 +300,11 @@ def _one_record(draw, tag, max_genes=4, isoforms=True):
         ntx = draw(st.sampled_from([1, 1, 1, 2, 3])) if isoforms else 1
         txs = []
         for j in range(ntx):
-            t = draw(S.transcript_spec(max_exons=3, max_len=9, strand=strand, coding=coding if ntx == 1 else draw(st.sampled_from([coding, coding, not coding])), zero_gap_cds=False, frameshift_prob=0, cds_overlap_prob=6, start_min=cursor, start_max=2))
+            coding_j = coding if ntx == 1 else draw(st.sampled_from([coding, coding, not coding]))
+            # non-coding transcripts may have abutting exons (a 0-bp intron is kept by the writer and the parsers; abutting CDS parts
+            # are read back as one block by the parsers, so coding transcripts keep real introns here)
+            t = draw(S.transcript_spec(max_exons=3, max_len=9, strand=strand, coding=coding_j, zero_gap_cds=False, frameshift_prob=0, cds_overlap_prob=6, start_min=cursor, start_max=2,
+                                         adjacent_exons=(not coding_j) and draw(st.integers(0, 2)) == 0))
             coding_t = "cds" in t
             t["transcript_id"] = "%sg%dt%d" % (tag, i, j)
             t["transcript_symbol"] = draw(st.one_of(st.none(), st.just("%ssym%d_%d" % (tag, i, j))))
@@ -353,7 +359,7 @@ PROP = Prop(
     pid="C12",
     legs=[
         Leg("genbank", check_genbank, strategy=strat_genbank, n_quick=150, n_thorough=1500, shards_quick=8,
-            must_hit=["minus&multi_exon", "offset!=0", "noncoding", "two_genes_touching", "translation_checked", "stale_translation_qualifier", "multi_isoform_gene", "several_records", "collection_on_chunk_with_offset"],
+            must_hit=["minus&multi_exon", "offset!=0", "noncoding", "two_genes_touching", "translation_checked", "stale_translation_qualifier", "multi_isoform_gene", "several_records", "collection_on_chunk_with_offset", "abutting_exons"],
             rule="1..4 single-strand genes at increasing positions (adjacent genes possible), 1..2 isoforms, coding (offset 0/1/2, one reading frame) or non-coding (ncRNA/tRNA/rRNA/misc_RNA/tmRNA/lncRNA), unique symbols and locus tags, optional feature collection; x flavour {prokaryotic, eukaryotic} x update_translations x parser mode {sorted, locus-tag, hybrid}"),
     ],
     rule="Oracle: Bio.SeqIO (independent reader) for record types/blocks/strand/qualifiers, Bio codon table for /translation; source spec for the "
